@@ -45,7 +45,7 @@ def cstep (st : Static) (c : CState) (t : Nat) : CState :=
     | some _ => c                                   -- blocked
     | none => { c with lock := some t, pcs := c.pcs.set t (.scan c.g.present c.g.present.length true) }
   | some (.scan [] total complete) =>
-    { c with g := { c.g with cache := if complete then total else c.g.cache, log := c.g.log ++ [.returned] },
+    { c with g := { c.g with cache := if complete then total else 0, log := c.g.log ++ [.returned] },
              lock := none, pcs := c.pcs.set t .idle }
   | some (.scan (m :: todo) total complete) =>
     if c.g.present.contains m then
